@@ -29,13 +29,13 @@ Open Scope N_scope.
 Inductive node := File (c : list N) | Dir.
 Inductive slotv := Empty | Link (i : N) | Sym (e : N).
 Inductive pstatus := POk (d : N) | PMissing | PNotDir.
-Inductive err := ENOENT | ENOTDIR | EISDIR | EXDEV | ELOOP | ESAMEFILE | EIO | ENOSPC | EACCES.
+Inductive err := ENOENT | ENOTDIR | EISDIR | EXDEV | ELOOP | ESAMEFILE | EIO | ENOSPC | EACCES | EEXIST.
 Inductive res (A : Type) := Ok (a : A) | Err (e : err).
 Arguments Ok {A} a.
 Arguments Err {A} e.
 
 (** fault oracle *)
-Inductive site := SRename | SOpen | SFstat | SStatDst | SCreate | SCopy | SRemove.
+Inductive site := SRename | SOpen | SFstat | SStatDst | SCreate | SCopy | SRemove | STmpRename | STmpRemove.
 Inductive choice := Pass | Fail (e : err) | Short (n : nat) (e : err).
 Definition faults := site -> choice.
 Definition no_faults : faults := fun _ => Pass.
@@ -201,6 +201,75 @@ Definition move_file_f (F : faults) (s : fs) (src dst : N) : fs * option err :=
   | Ok s1 => (s1, None)
   | Err _ =>
       match copy_file_f F s src dst with
+      | (s1, Some e) => (s1, Some e)
+      | (s1, None) =>
+          match faulty (F SRemove) (remove s1 src) with
+          | Ok s2 => (s2, None)
+          | Err e => (s1, Some e)
+          end
+      end
+  end.
+
+(** ** the second copy strategy: write a temporary file next to the destination, rename it over the
+    destination NAME ("atomic replace").  The destination entry is replaced — a symbolic link or a second
+    hard link is not written through — and an existing destination file is never truncated.
+    [tmp] is the slot of the temporary name (chosen by the implementation in the destination's
+    directory, i.e. [parent s tmp = parent s dst] in a faithful instance; the guarantees do not depend on it). *)
+
+(** OpenFile(O_WRONLY|O_CREATE|O_EXCL): does not follow a symbolic link, fails if the entry exists *)
+Definition create_excl (s : fs) (t : N) : res (fs * N) :=
+  match parent s t with
+  | POk _ =>
+      match slot s t with
+      | Empty =>
+          let n := next s in
+          Ok (mkFs (upd (slot s) t (Link n)) (upd (inode s) n (Some (File []))) (N.succ n) (parent s), n)
+      | _ => Err EEXIST
+      end
+  | PMissing => Err ENOENT
+  | PNotDir => Err ENOTDIR
+  end.
+
+(** best-effort removal of the temporary file on a failure path: when it fails the file stays behind *)
+Definition cleanup (F : faults) (s : fs) (t : N) : fs :=
+  match faulty (F STmpRemove) (remove s t) with Ok s' => s' | Err _ => s end.
+
+Definition replace_tail (F : faults) (s : fs) (si dst tmp : N) : fs * option err :=
+  match faulty (F SCreate) (create_excl s tmp) with
+  | Err e => (s, Some e)
+  | Ok (s1, d) =>
+      match io_copy (F SCopy) s1 d si with
+      | (s2, Some e) => (cleanup F s2 tmp, Some e)
+      | (s2, None) =>
+          match faulty (F STmpRename) (rename s2 tmp dst) with
+          | Ok s3 => (s3, None)
+          | Err e => (cleanup F s2 tmp, Some e)
+          end
+      end
+  end.
+
+(** CopyFile, replace strategy: open, src.Stat, os.Stat(dest) + os.SameFile as before, then temp + rename *)
+Definition copy_replace_f (F : faults) (s : fs) (src dst tmp : N) : fs * option err :=
+  match faulty (F SOpen) (open s src) with
+  | Err e => (s, Some e)
+  | Ok si =>
+      match F SFstat with
+      | Pass =>
+          match faulty (F SStatDst) (stat s dst) with
+          | Ok di => if si =? di then (s, Some ESAMEFILE) else replace_tail F s si dst tmp
+          | Err _ => replace_tail F s si dst tmp
+          end
+      | Fail e => (s, Some e)
+      | Short _ e => (s, Some e)
+      end
+  end.
+
+(** MoveFile on top of it: rename, else copy (replace strategy) and then Remove *)
+Definition move_replace_f (F : faults) (s : fs) (src dst tmp : N) : fs * option err :=
+  match faulty (F SRename) (rename s src dst) with
+  | Ok s1 => (s1, None)
+  | Err _ =>
+      match copy_replace_f F s src dst tmp with
       | (s1, Some e) => (s1, Some e)
       | (s1, None) =>
           match faulty (F SRemove) (remove s1 src) with
